@@ -112,6 +112,8 @@ func mkHandler(id int, b refmodel.Behaviour, log *[]refmodel.Event) rux.HandlerF
 				c.AddError(errors.New("recorded"))
 			case refmodel.SWrite:
 				c.WriteString("x")
+			case refmodel.SFlush:
+				c.Resp.(http.Flusher).Flush()
 			case refmodel.SWriteStr:
 				_, _ = io.WriteString(c.Resp, "x")
 			case refmodel.SProbe:
